@@ -10,7 +10,7 @@ Open Scope string_scope.
 Theorem C08_source_facts :
   src_registry = registry /\ src_qcreate = exp_qcreate /\ src_quantize_loop = exp_quantize_loop /\
   src_quantize_module = exp_quantize_module /\ src_mod_prints = exp_mod_prints.
-Proof. repeat split; [apply tie_registry | apply tie_qcreate | apply tie_quantize_loop | apply tie_quantize_module | apply tie_mod_prints]. Qed.
+Proof. exact (conj tie_registry (conj tie_qcreate (conj tie_quantize_loop (conj tie_quantize_module tie_mod_prints)))). Qed.
 Print Assumptions C08_source_facts.
 
 (* at ANY nesting depth and for ANY tree: the module at a non-root path of the quantized tree is the
@@ -35,3 +35,10 @@ Example C08_eligibility :
   qkind {| cfg_activations := false |} KLayerNorm = None /\ qkind {| cfg_activations := true |} KLayerNorm = Some KQLayerNorm /\
   qkind {| cfg_activations := false |} KLinear = Some KQLinear /\ qkind {| cfg_activations := false |} KOther = None.
 Proof. repeat split. Qed.
+
+(* named_modules() after quantize() lists the same dotted names in the same order with the same identities:
+   nothing is added, removed, renamed or moved *)
+Theorem C08_names_kept : forall cfg filter t,
+  map name_id (named "" (quantize_tree cfg filter t)) = map name_id (named "" t).
+Proof. exact named_quantize_names. Qed.
+Print Assumptions C08_names_kept.
